@@ -12,6 +12,7 @@ import TaskctlVerif.Model.Vars
 import TaskctlVerif.Model.Capture
 import TaskctlVerif.Model.Imports
 import TaskctlVerif.Model.GlobalCfg
+import TaskctlVerif.Model.Normalise
 import TaskctlVerif.Model.Refs
 import TaskctlVerif.Model.Loader
 import TaskctlVerif.Model.Output
@@ -130,6 +131,41 @@ def treeCase (fields : List String) : String :=
   let root := Sched.treeFinal tn fuel []
   s!"err={if root.gerr then 1 else 0}|" ++
     "|".intercalate (nodes.map fun (path, nd) => s!"{path}=" ++ finalStr nd.n (Sched.treeFinal tn fuel nd.p))
+
+/-! ### kinds of the nodes of raw documents -/
+
+/-- a sequence of trees: `L` leaf, `I(..)` interface-keyed mapping, `S(..)` string-keyed mapping, `A(..)` plain list,
+`M(..)` list of tables; fuel bounds the input length -/
+partial def parseTrees : List Char → List Normalise.V × List Char
+  | [] => ([], [])
+  | ')' :: rest => ([], rest)
+  | 'L' :: rest =>
+    let (vs, r) := parseTrees rest
+    (Normalise.V.leaf :: vs, r)
+  | c :: '(' :: rest =>
+    let k : Normalise.Kind := match c with
+      | 'I' => .mapI | 'S' => .mapS | 'M' => .listM | _ => .listI
+    let (children, r1) := parseTrees rest
+    let (vs, r2) := parseTrees r1
+    (Normalise.V.node k children :: vs, r2)
+  | _ :: rest => parseTrees rest
+
+mutual
+partial def showTree : Normalise.V → String
+  | .leaf => "L"
+  | .node k cs =>
+    (match k with | .mapI => "I" | .mapS => "S" | .listI => "A" | .listM => "M") ++ "(" ++ showTrees cs ++ ")"
+partial def showTrees : List Normalise.V → String
+  | [] => ""
+  | c :: cs => showTree c ++ showTrees cs
+end
+
+/-- `unify a=S(L)A(L) b=I(L)` : the top-level values of two documents; answer: both after `unifyMapKinds` -/
+def unifyCase (fields : List String) : String :=
+  let a := (parseTrees (kv fields "a").toList).1
+  let b := (parseTrees (kv fields "b").toList).1
+  let r := Normalise.unify a b
+  s!"a={showTrees r.1} b={showTrees r.2}"
 
 /-- `gsplit g=t:d0,c:d1,v:d2 p=t:d3` : definitions (t task, c context, v variable) in the global and in the project
 file; answer: the names a project sees, per section, sorted -/
@@ -492,6 +528,7 @@ def handle (line0 : String) : String :=
   | "prefixed" :: rest => prefixedCase rest
   | "cockpit" :: rest => cockpitCase rest
   | "gsplit" :: rest => gsplitCase rest
+  | "unify" :: rest => unifyCase rest
   | "native" :: _ => nativeCase
   | "glob" :: rest => globCase rest
   | "select" :: rest => selectCase rest
